@@ -253,10 +253,10 @@ def cmd_determinism(args) -> int:
     bad = 0
     for prop in args.prop.split(","):
         digs = []
-        for workers in (16, 3):
+        for workers, swap in ((16, ""), (3, ""), (16, "1")):
             d = tempfile.mkdtemp(prefix="verif-det-")
             env = dict(os.environ, VERIF_EVIDENCE_DIR=d, VERIF_REPLAY_DIR=d, VERIF_WORKERS=str(workers),
-                       VERIF_DUMP_DIGESTS=os.path.join(d, "digests.json"))
+                       VERIF_DUMP_DIGESTS=os.path.join(d, "digests.json"), VERIF_SWAP_HASHSEEDS=swap)
             r = run([PY, os.path.join(HERE, "check.py"), prop, "--runs", str(args.seeds)], env=env, cwd=HERE)
             try:
                 digs.append(json.load(open(os.path.join(d, "digests.json"))))
@@ -264,8 +264,10 @@ def cmd_determinism(args) -> int:
                 digs.append({"error": r.stdout[-500:] + r.stderr[-500:]})
             shutil.rmtree(d, ignore_errors=True)
         same = digs[0] == digs[1]
+        same_hs = digs[0] == digs[2]
         n = len(digs[0].get("history", [])) if isinstance(digs[0], dict) else 0
-        print(f"determinism {prop}: runs={args.seeds} distinct-history-digests={n} identical-across-worker-counts={same}")
+        print(f"determinism {prop}: runs={args.seeds} distinct-history-digests={n} "
+              f"identical-across-worker-counts={same} identical-under-swapped-PYTHONHASHSEED={same_hs}", flush=True)
         if not same:
             bad += 1
     return 1 if bad else 0
